@@ -12,6 +12,7 @@ ID = "C05"
 MODULE = "TelProofs.Props.C05"
 MODEL = tl.LeanExe("telmodel")
 ATOMS = ["a", "b"]
+ATOMS_ARGS = ["p(1)", "q(a,2)"]      # atoms with arguments take another branch of create_path than plain symbols
 ASSUMPTIONS = ["clingo enumerates exactly the stable models of the ground program incl. backend rules (solver contract)",
                "path expressions are in the documented normal form (generator emits only those; theorem hypothesis)"]
 
@@ -19,8 +20,9 @@ def gen_cases(seed, n, depth):
     r = random.Random(seed)
     cases = []
     for _ in range(n):
-        forms = [gen.gen_dform(r, r.randint(1, depth), ATOMS, pdepth=r.randint(1, 3)) for _ in range(r.randint(1, 2))]
-        cases.append((forms, ATOMS))
+        atoms = ATOMS if r.random() < 0.7 else ATOMS_ARGS
+        forms = [gen.gen_dform(r, r.randint(1, depth), atoms, pdepth=r.randint(1, 3)) for _ in range(r.randint(1, 2))]
+        cases.append((forms, atoms))
     return cases
 
 def confusable_cases(seed, n):
@@ -107,7 +109,7 @@ def search(ctx, deep):
     out = []
     for f in fails[:3]:
         for g in f.get("forms", []):
-            ff = oracles.compare_witness([([g], ATOMS)], 3, "del")
+            ff = oracles.compare_witness([([g], sorted(oracles.atoms_of_rules([("rule", "always", ("falsum",), (("del", "not", g),))])) or ATOMS)], 3, "del")
             if ff:
                 f = ff[0]
                 break
